@@ -27,9 +27,10 @@ TIERS = {"quick": {"shards": 8, "budget_s": 25}, "thorough": {"shards": 16, "bud
 RULE = (
     "random history (<= 14 ops quick / <= 40 thorough, N <= 10) over {add_error, add_matrix_error, disable_error, enable_error, value "
     "change, read} on one of {IndexedContainer, XYContainer, HistContainer, Indexed/XY/HistParametricModel} (+ UnbinnedContainer refusal, "
-    "+ direct CovMat histories); the first cases of each shard enumerate (container type x mutator kind x following read) bigrams. "
-    "non-trivial = the history contains, each followed by a later read, (a) a value change after a read after adding a relative source, or "
-    "(b) a disable/enable pair of one source, or (c) >= 2 sources of different kind; distinct by hash of the executed case"
+    "+ direct CovMat histories every 12th case); the first cases of each shard enumerate all (container type x mutator kind x following "
+    "read) bigrams, each shard starting at its own offset. non-trivial = the history contains, each followed by a later uncertainty read, "
+    "(a) a value change after a read after adding a relative source, or (b) a disable/enable pair of one source, or (c) >= 2 sources of "
+    "different kind (simple / cov / cor x absolute / relative); distinct by hash of the executed case"
 )
 ASSUMPTIONS = [
     "only valid inputs are generated (err >= 0, correlation in [0, 1], symmetric PSD matrices, unit-diagonal correlation matrices); malformed inputs belong to C19",
@@ -38,6 +39,8 @@ ASSUMPTIONS = [
     "relative sources with zero reference values are generated (sigma = 0 there); conversions that divide by the reference (relative size of an absolute source) are not read",
     "cov_mat_inverse @ cov ~ I (both orders) within max(1e-9, 1e-15*cond) * sum|terms| + 1e-12, compared only when cond(shadow cov) <= 1e8; None is accepted only when the shadow matrix is numerically singular (cond >= 1e13); in between the read is counted as discarded",
     "cor_mat is compared only where the shadow pointwise uncertainty is non-zero",
+    "cov / err tolerance: |got - shadow| <= 1e-12 * sum over enabled sources of |term| (same operations, other summation order); exact symmetry and exact equality of re-reads / disable-enable restores are demanded because correct code repeats the same arithmetic on the same inputs",
+    "a read whose first divergence carries a mechanism key is a genuine defect of the tree under test (see classify_value: the total the object holds equals the documented sum at an earlier value vector); the history ends there",
 ]
 ANCHORS = [
     ("kafe2.core.error", "SimpleGaussianError._calculate_cov_mat"),
@@ -118,29 +121,32 @@ def floors(tier):
     k = 20 if big else 1
     return {
         "comparisons": {
-            "err": 400 * k,
-            "cov_mat": 400 * k,
-            "cor_mat": 300 * k,
-            "cov_mat_inverse": 150 * k,
-            "cov_mat_inverse.none-iff-singular": 20 * k,
-            "total_error.cov_mat": 300 * k,
-            "total_error.error": 300 * k,
-            "symmetric": 700 * k,
-            "psd": 700 * k,
-            "restore.exact": 60 * k,
-            "reread.exact": 60 * k,
-            "values": 300 * k,
-            "op.accepted": 2000 * k,
-            "unbinned.refuses": 4,
-            "covmat.cor_mat": 20 * k,
-            "covmat.inverse": 20 * k,
-            "covmat.mat": 20 * k,
+            "err": 2000 * k,
+            "cov_mat": 2000 * k,
+            "cor_mat": 2000 * k,
+            "cov_mat_inverse": 1000 * k,
+            "cov_mat_inverse.none-iff-singular": 500 * k,
+            "total_error.cov_mat": 2000 * k,
+            "total_error.error": 2000 * k,
+            "symmetric": 4000 * k,
+            "psd": 4000 * k,
+            "restore.exact": 80 * k,
+            "reread.exact": 1500 * k,
+            "values": 1500 * k,
+            "op.accepted": 20000 * k,
+            "read.returned": 12000 * k,
+            "unbinned.refuses": 20,
+            "covmat.cor_mat": 500 * k,
+            "covmat.inverse": 500 * k,
+            "covmat.mat": 500 * k,
+            "covmat.chol": 100 * k,
+            "covmat.cond": 100 * k,
         },
         "ops": ["add_error", "add_matrix_error", "disable_error", "enable_error", "read"] + ALL_VC + ["covmat.set_mat", "covmat.iadd", "covmat.add", "covmat.rescale"],
         "reach": ["%s:%s" % a for a in ANCHORS],
         "strata": ["|".join(s) for s in all_strata()],
-        "sets": {"bigrams_executed": 150, "source_shapes": 30},
-        "distinct_nontrivial": 3000 if big else 150,
+        "sets": {"bigrams_executed": 300, "source_shapes": 30, "axis_specs": 4},
+        "distinct_nontrivial": 40000 if big else 2000,
     }
 
 
@@ -707,6 +713,9 @@ def apply_op(ctx, st, op, i):
             obj.parameters = list(a["parameters"])
         else:
             raise AssertionError(k)
+    except CovMatInvariantViolation as e:
+        ctx.violation(None, "covmat.invariant", {"op_index": i, "op": op, "raised": repr(e)})
+        return False
     except AssertionError:
         raise
     except Exception as e:  # a valid operation was refused / crashed
@@ -830,6 +839,9 @@ def do_read(ctx, st, op, i):
     raised = None
     try:
         got_all = read_real(st, what, spec)
+    except CovMatInvariantViolation as e:
+        ctx.violation(None, "covmat.invariant", {"op_index": i, "op": op, "raised": repr(e)})
+        return False
     except AssertionError:
         raise
     except Exception as e:
